@@ -86,7 +86,8 @@ SPEC['C18'] = ('Checker errors during validation never cause stale reuse and are
   ('C18_td_error', 'Local', 'check_deps_error', 'top-down: an erring resource checker ends validation with "inconsistent", pushes the error, never aborts'),
   ('C18_bu_error', 'Local', 'try_schedule_error', 'bottom-up: an erring checker pushes the error and schedules the task'),
 ], 'For arbitrary checker records and worlds.')
-SPEC['C19'] = ('An aborted build leaves the Pie instance usable and sound', ['Local', 'History', 'ExecInv', 'ExecSession', 'Cert', 'Stable', 'NoBug4', 'NoBug4All', 'Sim', 'Final', 'Findings'], [
+SPEC['C19'] = ('An aborted build leaves the Pie instance usable and sound', ['Local', 'History', 'ExecInv', 'ExecSession', 'Cert', 'Stable', 'NoBug4', 'NoBug4All', 'NoReentry', 'NoBugAll', 'Sim', 'Final', 'Findings'], [
+  ('C19_no_internal_error_any_history', 'NoBugAll', 'no_internal_error_any_history', 'for ALL programs, checkers, fuel and ALL histories -- top-down requires and bottom-up builds in any mix, any number of aborted builds at any point: every build either completes or aborts for a user-level reason (task panic, cyclic dependency, hidden dependency, overlapping write); none of the internal "BUG" panics (check of a reserved dependency, no output for a consistent task, no dependency found at update, edge without data, no output for an unaffected task, node missing) can occur; the store invariants and "a reserved edge only leaves a task without output" hold in every reachable state'),
   ('C19_store_invariants_any_history', 'NoBug4All', 'history_no_bug4', 'for ALL programs, checkers and histories, top-down, bottom-up and mixed, with any number of aborted builds at any point: the instance is left with a well-formed store (acyclic, gap-free ranks, typed edges, single writer) and never with a "node missing" internal error'),
   ('C19_any_session_from_invariant', 'NoBug4All', 'run_session_R', 'the step form: from ANY world satisfying the invariant L (store invariants + the executing task and all queued tasks have nodes), any session (requires, bottom-up builds, aborted or not) ends in a world satisfying L again'),
   ('C19_spurious_cycle_after_abort_refuted', 'Findings', 'C19_spurious_cycle_after_abort_refuted', 'recorded finding (O13): for programs whose require structure changes with the state, a repaired cycle can leave a reserved edge of the aborted task behind that makes a later build abort with a cycle that no longer exists'),
